@@ -1,5 +1,6 @@
 import JunoModel.C02.Proofs
 import JunoModel.C02.ProofsStore
+import JunoModel.C02.ProofsBody
 import JunoModel.Generated.Arith
 /-!
 C02 — "A block is stored only if hash, linkage, tx hashes and state root all verify."
@@ -843,6 +844,265 @@ theorem store_panics_on_l1_handler_without_calldata : l1CalldataChecked = false 
   | (intro _
      exact ⟨by decide, by decide, by decide, by decide⟩)
 
+/-! ## Round 5: header counts vs body lengths, the post-0.7 tamper theorem, the Sierra class hash
+
+`ModelBody.lean`. The header's `TransactionCount` / `EventCount` are hashed as NUMBERS next to the
+commitments over the CONTENT; nothing in `VerifyBlockHash` / `SanityCheckNewHeight` / `Store` compares a
+count with a length. What the block hash itself guarantees is proved here. -/
+
+/-- every accepted block pairs each transaction with a receipt (the one length relation juno checks itself) -/
+theorem accepted_block_pairs_transactions_with_receipts {σ : Type} (sem : StateSem σ) (net : Net) (c c' : Chain σ) (B : Bundle)
+    (h : accept sem net c B = .ok c') : B.block.txs.length = B.block.receipts.length :=
+  (accept_ok sem net c c' B h).1.lens
+
+/-- BODY LENGTH vs HEADER, all four hash formats at once: take a block `B` some node accepted (outside an
+unverifiable range) and any `B'` declaring the same hash — in particular `B` with its WHOLE header kept,
+hash and counts included — whose body has another number of transactions, another number of receipts,
+or (every format except pre-0.7, which commits no events) another total number of events: transactions,
+receipts and events ADDED to a valid empty block, or content REMOVED from a non-empty one. No node, whatever
+its chain, accepts `B'`. (A shortcut in a commitment keyed on a header count instead of on the content would
+falsify exactly this; harness family `body-length:*`.) -/
+theorem body_length_change_rejected {σ : Type} (sem : StateSem σ) (net : Net) (c c' d : Chain σ) (B B' : Bundle)
+    (hacc : accept sem net c B = .ok c')
+    (hu : inUnverifiable net B.block.header.number = false)
+    (hu' : inUnverifiable net B'.block.header.number = false)
+    (hsame : B'.block.header.hash = B.block.header.hash)
+    (hlen : B'.block.txs.length ≠ B.block.txs.length ∨ B'.block.receipts.length ≠ B.block.receipts.length ∨
+            (dispatch net B.block.header.number B.block.header.version ≠ some .pre07 ∧
+             eventTotal B'.block.receipts ≠ eventTotal B.block.receipts)) :
+    ∃ e, accept sem net d B' = .error e :=
+  body_length_change_rejected' sem net c c' d B B' hacc hu hu' hsame hlen
+
+/-- the block hash pins the three body lengths and both header counts: two blocks with the same hash term
+have the same number of transactions, (0.13.2+) of receipts, (all but pre-0.7) of events, the same
+`TransactionCount` and (all but pre-0.7) the same `EventCount` -/
+theorem same_hash_same_lengths_and_counts (net : Net) (b b' : Block) (sd sd' : StateDiff) (ov ov' : Option Term) (x : Term)
+    (h : blockHash net b sd ov = some x) (h' : blockHash net b' sd' ov' = some x) :
+    b.txs.length = b'.txs.length ∧ b.header.txCount = b'.header.txCount ∧
+    (dispatch net b.header.number b.header.version ≠ some .pre07 →
+      eventTotal b.receipts = eventTotal b'.receipts ∧ b.header.eventCount = b'.header.eventCount) ∧
+    ((dispatch net b.header.number b.header.version = some .v0134 ∨ dispatch net b.header.number b.header.version = some .v0132) →
+      b.receipts.length = b'.receipts.length) := by
+  obtain ⟨l1, l2, l3⟩ := sameHash_lengths net b b' sd sd' ov ov' x h h'
+  obtain ⟨c1, c2⟩ := sameHash_counts net b b' sd sd' ov ov' x h h'
+  exact ⟨l1, c1, fun hf => ⟨l2 hf, c2 hf⟩, l3⟩
+
+/-- `sn2core.AdaptBlock` derives both header counts from the content (`uint64` arithmetic: the running sum
+of the adapter is the total number of events mod 2^64): a block that enters through it has count = length -/
+theorem adapted_block_counts_match (b : Block) :
+    countsMatch (adaptCounts b) = true ∧ (adaptCounts b).header.eventCount = UInt64.ofNat (eventTotal b.receipts) ∧
+    (adaptCounts b).header.txCount = UInt64.ofNat b.txs.length :=
+  ⟨adaptCounts_match b, adaptedEventCount_eq b.receipts, rfl⟩
+
+/-- "an accepted block has count = length", as far as it holds for juno: the relation is INHERITED through
+the hash. If some node accepted a block whose header counts agree with its body (every block that came
+through the adapter), every block with the same declared hash that ANY node accepts has them agree too
+(the event count in every format but pre-0.7). -/
+theorem counts_match_inherited {σ : Type} (sem : StateSem σ) (net : Net) (c c' d d' : Chain σ) (B B' : Bundle)
+    (hacc : accept sem net c B = .ok c') (hacc' : accept sem net d B' = .ok d')
+    (hu : inUnverifiable net B.block.header.number = false)
+    (hu' : inUnverifiable net B'.block.header.number = false)
+    (hsame : B'.block.header.hash = B.block.header.hash) :
+    (B.block.header.txCount = adaptedTxCount B.block.txs → B'.block.header.txCount = adaptedTxCount B'.block.txs) ∧
+    (dispatch net B.block.header.number B.block.header.version ≠ some .pre07 →
+      B.block.header.eventCount = adaptedEventCount B.block.receipts →
+      B'.block.header.eventCount = adaptedEventCount B'.block.receipts) :=
+  counts_match_inherited' sem net c c' d d' B B' hacc hacc' hu hu' hsame
+
+/-- `tamper_rejected`, post-0.7 Pedersen format (every protocol below 0.13.2 from `First07Block` on) — missing
+until round 5. For blocks that carry their sequencer address: if a node accepts `B`, any `B'` declaring the
+same hash that uses another format, or differs in number / state root / sequencer / timestamp / transaction
+count / event count / parent hash, in any transaction's hash or committed signature, or in any event
+(from / keys / data, in order) is rejected by every node. -/
+theorem tamper_rejected_post07 {σ : Type} (sem : StateSem σ) (net : Net) (c c' d : Chain σ) (B B' : Bundle) (s s' : Term)
+    (hacc : accept sem net c B = .ok c')
+    (hu : inUnverifiable net B.block.header.number = false)
+    (hu' : inUnverifiable net B'.block.header.number = false)
+    (hs : B.block.header.sequencer = some s) (hs' : B'.block.header.sequencer = some s')
+    (hf : dispatch net B.block.header.number B.block.header.version = some .post07)
+    (hsame : B'.block.header.hash = B.block.header.hash)
+    (hdiff : dispatch net B'.block.header.number B'.block.header.version ≠ some .post07 ∨
+      (⟨B'.block.header.number, B'.block.header.stateRoot, s', B'.block.header.timestamp, B'.block.header.txCount,
+        B'.block.header.eventCount, B'.block.header.parentHash⟩ : HeaderViewPost07)
+        ≠ ⟨B.block.header.number, B.block.header.stateRoot, s, B.block.header.timestamp, B.block.header.txCount,
+           B.block.header.eventCount, B.block.header.parentHash⟩ ∨
+      B'.block.txs.map (sigViewPedersen (allSigsOf B'.block)) ≠ B.block.txs.map (sigViewPedersen (allSigsOf B.block)) ∨
+      eventsOnly B'.block.receipts ≠ eventsOnly B.block.receipts) :
+    ∃ e, accept sem net d B' = .error e := by
+  cases hacc' : accept sem net d B' with
+  | error e => exact ⟨e, rfl⟩
+  | ok d' =>
+    have hv := (accept_ok sem net c c' B hacc).1
+    have hv' := (accept_ok sem net d d' B' hacc').1
+    have hh := verified_uses_own_sequencer net B hv s hs hu
+    have hh' := verified_uses_own_sequencer net B' hv' s' hs' hu'
+    rw [hsame] at hh'
+    obtain ⟨hd, q, q', hq, hq', hview, htx, hev⟩ :=
+      blockHash_post07_inj net B.block B'.block B.su.diff B'.su.diff none none _ hf hh hh'
+    simp only [hs, hs', Option.some.injEq] at hq hq'
+    subst hq hq'
+    rcases hdiff with h | h | h | h
+    · exact absurd hd h
+    · exact absurd hview.symm h
+    · exact absurd htx.symm h
+    · exact absurd hev.symm h
+
+/-- a self-consistent 0.14.0 block whose header says 7 transactions and 9 events while its body has one
+transaction and one event: the hash is computed by juno's own rule (header counts + commitments over the content) -/
+def exCntHeader0 : Header :=
+  { (default : Header) with
+      number := 0, parentHash := .felt 0, stateRoot := .felt 1001, sequencer := some (.felt 0x5e9),
+      txCount := 7, eventCount := 9, timestamp := 1700000000, version := asciiBytes "0.14.0", l1GasPriceETH := .felt 3,
+      l1GasPriceSTRK := some (.felt 4), l1DAMode := 1, l1DataGasPrice := some ⟨some (.felt 5), some (.felt 6)⟩,
+      l2GasPrice := some ⟨some (.felt 7), some (.felt 8)⟩ }
+def exCntInvoke0 : InvokeTx :=
+  { (default : InvokeTx) with
+      version := 3, senderAddress := .felt 0x101, nonce := .felt 1, callData := [.felt 1, .felt 2], signature := [.felt 8, .felt 9],
+      bounds := ⟨some ⟨5, some 7⟩, some ⟨6, some 8⟩, some ⟨1, some 2⟩⟩, tip := 1, feeDAMode := 1 }
+def exCntInvoke : InvokeTx := { exCntInvoke0 with hash := (invokeHash (strFelt "SN_SEPOLIA") exCntInvoke0).getD (.felt 0) }
+def exCntReceipt : Receipt :=
+  { (default : Receipt) with fee := .felt 3, txHash := exCntInvoke.hash, events := [⟨.felt 0x101, [.felt 0x50], [.felt 1]⟩], totalGas := some ⟨3, 4, 5⟩ }
+def exCntNet : Net := ⟨strFelt "SN_SEPOLIA", 0, none, some (.felt 0x46a)⟩
+def exCntBlock0 : Block := ⟨exCntHeader0, [.invoke exCntInvoke], [exCntReceipt]⟩
+def exCntHash : Term := (blockHash exCntNet exCntBlock0 default none).getD (.felt 0)
+def exCntBundle : Bundle :=
+  ⟨{ exCntBlock0 with header := { exCntHeader0 with hash := exCntHash } }, ⟨exCntHash, .felt 1001, .felt 1000, default⟩, []⟩
+def exCntSem : StateSem Nat := ⟨fun st _ => .felt (1000 + st), fun st _ _ _ => some (st + 1)⟩
+
+/-- NAMED EXCEPTION (juno as it is): the header counts are taken AS DECLARED. The block above — counts 7 / 9,
+body 1 transaction / 1 event, hash recomputed over exactly that — passes `SanityCheckNewHeight` and `Store`:
+juno never compares a header count with a length. Count = length is established where blocks enter
+(`adapted_block_counts_match`; p2p sync compares them before calling `SanityCheckNewHeight`) and inherited
+through the hash (`counts_match_inherited`). Harness: `body-length:*+rehash` offers are observed (accepted),
+never judged. -/
+theorem exception_header_counts_not_compared_with_content :
+    (offer exCntSem exCntNet ⟨none, 0, []⟩ exCntBundle).2 = none ∧ countsMatch exCntBundle.block = false := by
+  decide
+
+/-! ### the Sierra class hash (`core.SierraClass.Hash`, what `VerifyClassHashes` recomputes) -/
+
+/-- `SierraClass.Hash()` commits the `SierraView`: the version tag's value (mod P), every entry point (selector
+and index, in order) of the three lists, the ABI hash and the program hash. Two definitions that verify under
+the same class hash — by either variant of the code — have the same view. -/
+theorem sierraClassHash_injective (l l' : Bool) (c c' : SierraCls) (x : Term)
+    (h : sierraClassHashWith l c = some x) (h' : sierraClassHashWith l' c' = some x) : sierraView c = sierraView c' :=
+  sierraClassHashWith_inj l l' c c' x h h'
+
+/-- … hence a tampered definition at ANY position of `newClasses` that keeps its key but changes the view is
+refused by `VerifyClassHashes` as soon as the untampered one verifies -/
+theorem class_definition_tamper_rejected (l : Bool) (cs cs' : List (Term × ClsDef)) (k : Term) (c c' : SierraCls)
+    (hok : verifyClassHashesT l cs = true) (hm : (k, ClsDef.sierra c) ∈ cs) (hm' : (k, ClsDef.sierra c') ∈ cs')
+    (hdiff : sierraView c' ≠ sierraView c) : verifyClassHashesT l cs' = false := by
+  cases hv : verifyClassHashesT l cs' with
+  | false => rfl
+  | true =>
+    have h1 := verifyClassHashesT_mem l cs hok k c hm
+    have h2 := verifyClassHashesT_mem l cs' hv k c' hm'
+    exact absurd (sierraClassHashWith_inj l l c' c k h2 h1) hdiff
+
+/-- a class as `sn2core.AdaptSierraClass` builds it (program hash = Poseidon of the program, ABI hash =
+Starknet-Keccak of the ABI): the class hash commits the program, felt by felt, and the ABI bytes as well -/
+theorem adapted_class_hash_commits_definition (l l' : Bool) (c c' : SierraCls) (x : Term)
+    (h : sierraClassHashWith l (adaptSierra c) = some x) (h' : sierraClassHashWith l' (adaptSierra c') = some x) :
+    c.program = c'.program ∧ c.abi = c'.abi ∧ c.external = c'.external ∧ c.l1Handler = c'.l1Handler ∧
+    c.constructor = c'.constructor := by
+  have hv := sierraClassHashWith_inj l l' _ _ x h h'
+  simp only [sierraView, adaptSierra, SierraView.mk.injEq, Term.posN.injEq, Term.keccak.injEq] at hv
+  exact ⟨hv.2.2.2.2.2, hv.2.2.2.2.1, hv.2.1, hv.2.2.1, hv.2.2.2.1⟩
+
+/-- NAMED EXCEPTION: `Hash()` reads the two PRECOMPUTED fields, not the definition: on the level of
+`SanityCheckNewHeight(block, stateUpdate, newClasses)` the `Program` and `Abi` of a Sierra class are not
+committed (they are for every class the adapters build: `adapted_class_hash_commits_definition`) -/
+theorem exception_class_program_and_abi_not_hashed (l : Bool) (c : SierraCls) (p : List Term) (a : Bytes) :
+    sierraClassHashWith l { c with program := p, abi := a } = sierraClassHashWith l c := by
+  simp [sierraClassHashWith]
+
+/-- the semantic version string enters as `SetBytes("CONTRACT_CLASS_V" ++ version)`, REDUCED mod P. Versions
+of at most 15 bytes (tag + version ≤ 31 bytes; every real class has "0.1.0") are committed byte for byte …
+PARTIAL: the full-strength statement has no length hypotheses; it fails for the code as it is
+(`class_version_wrap_accepted`) and holds with the repair (`class_version_committed_when_limited`). -/
+theorem class_version_committed_partial (l l' : Bool) (c c' : SierraCls) (x : Term)
+    (hv : c.semanticVersion.length ≤ 15) (hv' : c'.semanticVersion.length ≤ 15)
+    (h : sierraClassHashWith l c = some x) (h' : sierraClassHashWith l' c' = some x) :
+    c.semanticVersion = c'.semanticVersion := by
+  have := sierraClassHashWith_inj l l' c c' x h h'
+  simp only [sierraView, SierraView.mk.injEq] at this
+  exact classVersion_inj_of_short _ _ hv hv' this.1
+
+/-- a 39-byte semantic version that starts with `0.1.0.` and has the value of `0.1.0` modulo P behind the tag -/
+def exWrapClassVersion : Bytes :=
+  [48, 46, 49, 46, 48, 46, 0, 1, 157, 240, 209, 27, 29, 217, 161, 8, 105, 234, 13, 217, 150, 124, 170, 236, 26, 239, 129,
+   148, 96, 240, 211, 15, 59, 115, 105, 168, 65, 254, 193]
+
+/-- DEFECT WITNESS for the code as it is (`limited = false`): the class hash of a definition does not change
+when its `SemanticVersion` "0.1.0" is replaced by the 39-byte string above, so `VerifyClassHashes` accepts the
+tampered definition under the same class hash; with the repair (`limited = true`) `Hash()` fails for it.
+Harness: known finding `sierra-class-version-wraps-mod-p`. -/
+theorem class_version_wrap_accepted (c : SierraCls) (h : c.semanticVersion = asciiBytes "0.1.0") :
+    sierraClassHashWith false { c with semanticVersion := exWrapClassVersion } = sierraClassHashWith false c ∧
+    exWrapClassVersion ≠ c.semanticVersion ∧
+    sierraClassHashWith true { c with semanticVersion := exWrapClassVersion } = none := by
+  refine ⟨?_, ?_, ?_⟩
+  · have e : classVersionFelt exWrapClassVersion = classVersionFelt (asciiBytes "0.1.0") := by decide
+    simp [sierraClassHashWith, h, e]
+  · rw [h]; decide
+  · simp [sierraClassHashWith, exWrapClassVersion]
+
+/-- … and with the repair the version is committed at FULL strength: whatever two definitions hash to the
+same class hash have the same version string -/
+theorem class_version_committed_when_limited (c c' : SierraCls) (x : Term)
+    (h : sierraClassHashWith true c = some x) (h' : sierraClassHashWith true c' = some x) :
+    c.semanticVersion = c'.semanticVersion := by
+  have hl : ∀ (d : SierraCls) (y : Term), sierraClassHashWith true d = some y → d.semanticVersion.length ≤ 15 := by
+    intro d y hd
+    unfold sierraClassHashWith at hd
+    split at hd
+    · simp at hd
+    · rename_i hn
+      simp only [Bool.true_and, decide_eq_true_eq] at hn
+      omega
+  exact class_version_committed_partial true true c c' x (hl c x h) (hl c' x h') h h'
+
+/-! ### when the compiled-class hash panics (`core.CasmClass.Hash`, called by `storeCasmHashMetadataV1` inside `Store`) -/
+
+/-- FLAT segment lengths (what the Cairo compiler emits): `CasmClass.Hash` panics exactly when the lengths add
+up to more than the capacity of the bytecode slice — the `uint64` sum wrapping around included. -/
+theorem compiled_class_hash_panics_iff_flat (cap : Nat) (hcap : cap < 2 ^ 64) (l : UInt64) (ls : List UInt64) :
+    compiledHashPanics (some ⟨cap, flatSegs (l :: ls)⟩) = true ↔ cap < ((l :: ls).map UInt64.toNat).sum :=
+  compiledHashPanics_flat_iff cap hcap l ls
+
+/-- a nil `Compiled` (what `starknetdata/feeder` passes for a deprecated compiled class) always panics; a compiled
+class WITHOUT segment lengths never does (the whole bytecode is hashed, nothing is sliced) -/
+theorem compiled_class_hash_nil_and_unsegmented (cap : Nat) :
+    compiledHashPanics none = true ∧ compiledHashPanics (some ⟨cap, []⟩) = false := ⟨rfl, rfl⟩
+
+/-- DEFECT WITNESS for the code as it is (`guarded = false`): a compiled class of three felts whose segment
+lengths say 2 + 2, and a class without compiled class, make the V2-hash computation of
+`storeCasmHashMetadataV1` PANIC — inside `Store`, for a block below 0.14.1 that passed every verification (the
+compiled class is committed by nothing juno checks). With the repair (`guarded = true`) the outcome is an error:
+the block is rejected and the batch dropped. Four felts for 2 + 2 are fine in both variants.
+Harness: known finding `store-panics-on-malformed-compiled-class`. -/
+theorem store_panics_on_malformed_compiled_class :
+    casmV2HashOutcomeWith false (some ⟨3, flatSegs [2, 2]⟩) = .panic ∧ casmV2HashOutcomeWith false none = .panic ∧
+    casmV2HashOutcomeWith true (some ⟨3, flatSegs [2, 2]⟩) = .error ∧ casmV2HashOutcomeWith true none = .error ∧
+    casmV2HashOutcomeWith false (some ⟨4, flatSegs [2, 2]⟩) = .value ∧ casmV2HashOutcomeWith true (some ⟨4, flatSegs [2, 2]⟩) = .value := by
+  decide
+
+/-- the guard is total: with the repair the V2-hash step never panics, whatever the compiled class is -/
+theorem no_casm_hash_panic_when_guarded (c : Option CompiledShape) : casmV2HashOutcomeWith true c ≠ .panic := by
+  unfold casmV2HashOutcomeWith
+  split <;> simp
+
+/-- NESTED segment lengths, as transcribed: `digestSegment` advances the shared `startingOffset` once inside the
+recursive call and once more in the parent's loop. A segment `[3, 2]` nested in one parent leaves the offset at 10,
+not 5; and the well-formed shape `[[2], 1]` over three felts (2 + 1 = 3) is sliced at `[4:5]` — a panic.
+(Recorded as a lead: the compiled-class hash of a class with nested segments is not C02's subject.) -/
+theorem nested_segments_advance_the_offset_twice :
+    Seg.digest 5 [Seg.mk [Seg.mk [] 3, Seg.mk [] 2] 0] 0 0 = some (5, 10) ∧
+    compiledHashPanics (some ⟨3, [Seg.mk [Seg.mk [] 2] 0, Seg.mk [] 1]⟩) = true ∧
+    compiledHashPanics (some ⟨3, flatSegs [2, 1]⟩) = false := by
+  decide
+
 /-! ## Non-vacuity: the hypotheses above are satisfiable -/
 
 section Examples
@@ -942,6 +1202,48 @@ timestamp AND sequencer address it is still accepted (`exception_pre07_uncommitt
 example : (offer exOldSem exBNet exOldChain exPre07Bundle).2 = none ∧
     (offer exOldSem exBNet exOldChain { exPre07Bundle with block := { exPre07Bundle.block with header := { exPre07Bundle.block.header with txCount := 2 } } }).2 = some .blockHash ∧
     (offer exOldSem exBNet exOldChain { exPre07Bundle with block := { exPre07Bundle.block with header := { exPre07Bundle.block.header with timestamp := 5, sequencer := some (.felt 7) } } }).2 = none := by decide
+
+/-- round 5, body length vs header: a valid EMPTY 0.14.0 block is accepted; the same header (hash, counts 0 / 0)
+with a transaction, its receipt and an event ADDED is rejected by the hash check; the non-empty example block with
+its content REMOVED (header kept) too; and both tamperings change `bodyLengths` -/
+def exEmptyHeader0 : Header := { exHeader0 with txCount := 0, eventCount := 0 }
+def exEmptyHash : Term := (blockHash exNet ⟨exEmptyHeader0, [], []⟩ exDiff none).getD (.felt 0)
+def exEmptyBundle : Bundle := ⟨⟨{ exEmptyHeader0 with hash := exEmptyHash }, [], []⟩, ⟨exEmptyHash, .felt 1001, .felt 1000, exDiff⟩, []⟩
+def exEmptyFilled : Bundle := { exEmptyBundle with block := { exEmptyBundle.block with txs := [.invoke exInvoke], receipts := [exReceipt] } }
+def exEmptied : Bundle := { exBundle with block := { exBundle.block with txs := [], receipts := [] } }
+example : (offer exSem exNet exChain exEmptyBundle).2 = none ∧ (offer exSem exNet exChain exEmptyFilled).2 = some .blockHash ∧
+    (offer exSem exNet exChain exEmptied).2 = some .blockHash ∧
+    exEmptyFilled.block.header = exEmptyBundle.block.header ∧ exEmptied.block.header = exBundle.block.header ∧
+    bodyLengths exEmptyFilled.block ≠ bodyLengths exEmptyBundle.block ∧ bodyLengths exEmptied.block ≠ bodyLengths exBundle.block := by decide
+/-- the example blocks have count = length (hypothesis of `counts_match_inherited`), also after the adapter's derivation -/
+example : countsMatch exBundle.block = true ∧ countsMatch exEmptyBundle.block = true ∧
+    adaptCounts exBundle.block = exBundle.block := by decide
+/-- hypotheses of `tamper_rejected_post07`: the 0.12.3 block is accepted, carries its sequencer, uses the post-0.7 format;
+with another event count (hash kept) it is rejected -/
+example : (offer exOldSem exOldNet exOldChain exOldBundle).2 = none ∧ exOldBundle.block.header.sequencer = some (.felt 0x5e9) ∧
+    dispatch exOldNet exOldBundle.block.header.number exOldBundle.block.header.version = some .post07 ∧
+    (offer exOldSem exOldNet exOldChain { exOldBundle with block := { exOldBundle.block with header := { exOldBundle.block.header with eventCount := 1 } } }).2
+      = some .blockHash := by decide
+/-- a Sierra class: its hash is defined in both variants of the code, another entry-point index / selector /
+ABI hash / program hash / (short) version changes the view, and `VerifyClassHashes` refuses the tampered definition -/
+def exSierra : SierraCls :=
+  { semanticVersion := asciiBytes "0.1.0", external := [⟨0, .felt 77⟩, ⟨1, .felt 78⟩], l1Handler := [], constructor := [⟨2, .felt 79⟩],
+    abiHash := .felt 4242, programHash := .felt 4244, program := [.felt 1, .felt 2, .felt 3], abi := asciiBytes "[]" }
+def exSierraKey : Term := (sierraClassHash exSierra).getD (.felt 0)
+example : (sierraClassHashWith false exSierra).isSome = true ∧ (sierraClassHashWith true exSierra).isSome = true ∧
+    verifyClassHashesT false [(.felt 5, .cairo0), (exSierraKey, .sierra exSierra)] = true ∧
+    verifyClassHashesT false [(exSierraKey, .sierra { exSierra with external := [⟨0, .felt 77⟩, ⟨2, .felt 78⟩] })] = false ∧
+    verifyClassHashesT false [(exSierraKey, .sierra { exSierra with constructor := [] })] = false ∧
+    verifyClassHashesT false [(exSierraKey, .sierra { exSierra with semanticVersion := asciiBytes "0.1.1" })] = false ∧
+    verifyClassHashesT false [(exSierraKey, .sierra { exSierra with program := [] })] = true ∧
+    sierraView { exSierra with abiHash := .felt 1 } ≠ sierraView exSierra := by decide
+/-- the wrap witness on that class: same key in the code as it is, `Hash()` fails with the repair -/
+example : verifyClassHashesT false [(exSierraKey, .sierra { exSierra with semanticVersion := exWrapClassVersion })] = true ∧
+    verifyClassHashesT true [(exSierraKey, .sierra { exSierra with semanticVersion := exWrapClassVersion })] = false ∧
+    verifyClassHashesT true [(exSierraKey, .sierra exSierra)] = true := by decide
+/-- an adapted class (`adaptSierra`): hypotheses of `adapted_class_hash_commits_definition` -/
+example : (sierraClassHashWith false (adaptSierra exSierra)).isSome = true ∧
+    sierraClassHashWith false (adaptSierra { exSierra with program := [.felt 1, .felt 2, .felt 4] }) ≠ sierraClassHashWith false (adaptSierra exSierra) := by decide
 
 end Examples
 
